@@ -11,6 +11,7 @@ typedef const int CI;
 typedef int MI;
 const int cg = 1; const int ca[2] = {1, 2}; const S cs = {1, {1, 2}}; const S csa[2] = {{1, {1, 2}}, {1, {1, 2}}};
 CI tc = 1;
+typedef struct { const int a[2]; int bb; } MIX; MIX mix = {{1, 2}, 3};
 int m; int ma[2]; S ms; S msa[2]; MI tm; bool b; int i;
 void wr(int &q) { q = 1; }
 """
@@ -21,7 +22,7 @@ OPS = {"assign": "%s = 1", "addassign": "%s += 1", "subassign": "%s -= 1", "mula
        "modassign": "%s %%= 1", "andassign": "%s &= 1", "orassign": "%s |= 1", "xorassign": "%s ^= 1", "shlassign": "%s <<= 1",
        "shrassign": "%s >>= 1", "preinc": "++%s", "postinc": "%s++", "predec": "--%s", "postdec": "%s--", "funref": "wr(%s)"}
 WHERE = {"cg": "global", "ca": "global", "cs": "global", "csa": "global", "tc": "global", "cl": "flocal", "cp": "fparam", "cr": "fparam",
-         "crs": "fparam", "tp": "tparam", "tcr": "tparam", "ks": "select", "ki": "iter", "m": "global", "ma": "global", "ms": "global",
+         "crs": "fparam", "mix": "global", "tp": "tparam", "tcr": "tparam", "ks": "select", "ki": "iter", "m": "global", "ma": "global", "ms": "global",
          "msa": "global", "tm": "global", "l": "flocal", "p": "fparam", "r": "fparam", "rs": "fparam", "tv": "tparam", "tr": "tparam"}
 
 
@@ -32,6 +33,8 @@ def lv(L):
     if k == "idx":
         return lv(L[1]) + "[0]"
     if k == "fld":
+        if L[1] == ["id", "mix"]:
+            return "mix" + (".a" if L[2] == 1 else ".bb")
         return lv(L[1]) + (".f" if L[2] == 1 else ".h")
     if k == "cond":
         return "(b ? %s : %s)" % (lv(L[1]), lv(L[2]))
@@ -102,7 +105,7 @@ def run(tier):
             nontrivial += 1
             if accepted:
                 c.finding("c12:const-write-accepted:" + key, "write to a constant accepted (%s): %s" % (pl["ctx"], case["text"]), rep)
-        elif not accepted:
+        elif not accepted and cs["allmut"]:
             c.finding("c12:mutable-write-rejected:" + key, "write to a mutable object rejected (%s): %s (%s)" % (pl["ctx"], case["text"], msgs[:2]), rep)
         if cs["modifiable"] != accepted:
             drift += 1
